@@ -99,3 +99,12 @@ OBS.append(Ob(['C01', 'C10', 'C15', 'C16', 'C03'], 'variant_dispatch_all', defs=
 OBS.append(Ob(['C11', 'C16', 'C03'], 'variant_dispatch_skip', defs=['UNIT_H="jd_var.h"', 'MODE=2'], desc='skipVariant: same selection among the skipping routines', bound='all 2-byte inputs, all limits, every result code', **VD))
 for fs_, nm in [(0, 'true'), (1, 'false'), (2, '[true]'), (3, '[false]'), (4, '[]'), (5, '{}')]:
     OBS.append(Ob(['C11', 'C15', 'C03'], 'variant_dispatch_filter_%d' % fs_, defs=['UNIT_H="jd_var.h"', 'MODE=1', 'FSHAPE=%d' % fs_], desc='parseVariant<Filter> under the filter %s: parsing routine iff the filter admits that kind, else the skipping twin and a null destination; true/false stored iff scalars admitted' % nm, bound='all 2-byte inputs, all limits, every result code', **VD))
+
+UNITS += [Unit('jd_cm', 'wrappers/jd.cpp', defs=SM + ['ARDUINOJSON_ENABLE_COMMENTS=1'])]
+for nb_, un_ in [(5, 9), (6, 10)]:
+    OBS.append(Ob(['C10', 'C16', 'C03'], 'spaces_blockcomment_n%d' % nb_, 'jd_cm', 'harness/jd_leaf.c', 'h_spaces', defs=['UNIT_H="jd_cm.h"', 'NB=%d' % nb_, 'COMMENTS=1', 'CMPREFIX=1'], unwind=un_, cap=600, hunwind=12,
+        desc='skipSpacesAndComments with comments enabled, input opening a block comment: the comment ends at the first "*/" only', bound='"/*" + all continuations of %d bytes' % (nb_ - 2)))
+OBS.append(Ob(['C10', 'C16', 'C03'], 'spaces_linecomment_n5', 'jd_cm', 'harness/jd_leaf.c', 'h_spaces', defs=['UNIT_H="jd_cm.h"', 'NB=5', 'COMMENTS=1', 'CMPREFIX=2'], unwind=9, cap=600, hunwind=12,
+    desc='skipSpacesAndComments with comments enabled, input opening a line comment: it ends at the first newline only; end of input inside => IncompleteInput', bound='"//" + all continuations of 3 bytes'))
+# (a symbolic byte right after the slash - block comment, line comment or InvalidInput - makes CBMC's accounting of the scanner's
+#  merged loops report a too-small unwinding bound at every bound tried (9, 14, 22): not registered; the comment openers are concrete)
